@@ -145,6 +145,27 @@ def build_overlay(scratch, parts, instrument):
         gomod += "\nreplace %s => %s\n" % (COMMONS, ccopy)
         open(modfile, "w", encoding="utf-8").write(gomod)
         shutil.copy(os.path.join(REPO, "go.sum"), os.path.join(scratch, "go.sum"))
+    # statement-level scheduling points (preemptive mode): instrument the listed files with lib/pointgen
+    point_files = []
+    for p in parts:
+        for f in p.get("points", []):
+            if f not in point_files:
+                point_files.append(f)
+    if point_files:
+        tool = os.path.join(scratch, "pointgen")
+        r = subprocess.run(["go", "build", "-o", tool, os.path.join(VERIF, "lib", "pointgen", "main.go")], cwd=scratch, env=goenv(), capture_output=True, text=True)
+        if r.returncode != 0:
+            raise SystemExit("cannot build pointgen: " + r.stderr)
+        pdir = os.path.join(scratch, "points")
+        os.makedirs(pdir, exist_ok=True)
+        for f in point_files:
+            target = os.path.join(REPO, f)
+            src = replace.get(target, target)
+            dst = os.path.join(pdir, f.replace("/", "__"))
+            r = subprocess.run([tool, src, dst, os.path.basename(f)], capture_output=True, text=True)
+            if r.returncode != 0:
+                raise SystemExit("pointgen failed for %s: %s" % (f, r.stderr))
+            replace[target] = dst
     ov = os.path.join(scratch, "overlay.json")
     json.dump({"Replace": replace}, open(ov, "w"), indent=1)
     return ov, modfile
